@@ -58,7 +58,9 @@ def shortest_digits(v):
             if back == v:
                 cands.append((abs(val - exact), mm))
         if cands:
-            cands.sort()
+            # closest to v; on an exact tie ECMAScript chooses the even digit string ("if there are two such
+            # possible values of s, choose the one that is even")
+            cands.sort(key=lambda c: (c[0], c[1] % 2))
             mm = cands[0][1]
             ds = str(mm)
             # position of the decimal point: value = mm * 10**(e10-p)
@@ -150,6 +152,7 @@ VECTORS_HEX = [
     ("41b3de4355555555", "333333333.3333333"), ("41b3de4355555556", "333333333.3333334"),
     ("41b3de4355555557", "333333333.33333343"), ("becbf647612f3696", "-0.0000033333333333333333"),
     ("43143ff3c1cb0959", "1424953923781206.2"),
+    ("4300000000000006", "562949953421312.8"),   # exact tie between ...312.7 and ...312.8: the even digit string wins
 ]
 
 
